@@ -523,7 +523,8 @@ static int is_proxy_trusted(plugin_data *p, const char * const ip, size_t iplen)
          && 1 != sock_addr_inet_pton(&addr, addrstr, AF_INET6, 0)) return 0;
 
         for (uint32_t i = 0; i < aused; ++i) {
-            if (sock_addr_is_addr_eq_bits(&addr, &addrs[i].addr, addrs[i].bits))
+            /*(netmask bits are relative to the configured network: pass it first)*/
+            if (sock_addr_is_addr_eq_bits(&addrs[i].addr, &addr, addrs[i].bits))
                 return 1;
         }
     }
